@@ -13,11 +13,17 @@ type X struct {
 	Choices []int
 	Ns      []int
 	Labels  []string
+	Costs   []int8
 	noLabel bool
+	NoLabels bool // do not record labels (hot paths)
+	Owned    bool // false for nodes above the sharding frontier in shards that do not own them: run, but do not count or judge
 }
 
 // Choose returns the choice for the next choice point with n alternatives (n >= 1).
-func (x *X) Choose(n int, label string) int {
+func (x *X) Choose(n int, label string) int { return x.ChooseCost(n, label, 1) }
+
+// ChooseCost is Choose with an explicit deviation cost for the non-default alternatives (0 = free choice).
+func (x *X) ChooseCost(n int, label string, cost int) int {
 	i := len(x.Choices)
 	c := 0
 	if i < len(x.prefix) {
@@ -28,7 +34,8 @@ func (x *X) Choose(n int, label string) int {
 	}
 	x.Choices = append(x.Choices, c)
 	x.Ns = append(x.Ns, n)
-	if !x.noLabel {
+	x.Costs = append(x.Costs, int8(cost))
+	if !x.noLabel && !x.NoLabels {
 		x.Labels = append(x.Labels, label)
 	}
 	return c
@@ -77,14 +84,22 @@ type Explorer struct {
 	Mine     func() bool         // optional sharding predicate, asked once per first-level subtree
 	Stop     func() bool         // optional deadline
 	Replay   []int               // if non-nil: run exactly this choice list and nothing else
+	NoLabels bool
+	// Sharding: nodes with fewer than ShardDepth non-default choices are executed by every shard (owned by the
+	// Primary one only); each subtree rooted at a node with exactly ShardDepth non-default choices is explored by the
+	// shard for which Mine() returns true. ShardDepth 0 disables sharding inside the explorer.
+	ShardDepth int
+	Primary    bool
 	Stats    Stats
 }
 
-func (e *Explorer) run(prefix []int) *X {
-	x := &X{prefix: prefix}
+func (e *Explorer) run(prefix []int, owned bool) *X {
+	x := &X{prefix: prefix, NoLabels: e.NoLabels, Owned: owned}
 	e.Body(x)
-	e.Stats.Executions++
-	e.Stats.ChoicePoints += int64(len(x.Choices))
+	if owned {
+		e.Stats.Executions++
+		e.Stats.ChoicePoints += int64(len(x.Choices))
+	}
 	if len(x.Choices) > e.Stats.MaxDepth {
 		e.Stats.MaxDepth = len(x.Choices)
 	}
@@ -97,37 +112,49 @@ func (e *Explorer) run(prefix []int) *X {
 // Run explores everything within the bound.
 func (e *Explorer) Run() {
 	if e.Replay != nil {
-		e.run(e.Replay)
+		e.run(e.Replay, true)
 		return
 	}
-	e.explore(nil, 0, true)
+	if e.ShardDepth == 0 && e.Mine != nil {
+		e.ShardDepth = 1
+		e.Primary = true
+	}
+	e.explore(nil, 0, 0, e.ShardDepth == 0 || e.Primary)
 }
 
-func (e *Explorer) explore(prefix []int, dev int, root bool) {
+func (e *Explorer) explore(prefix []int, dev int, level int, owned bool) {
 	if e.Stop != nil && e.Stop() {
 		e.Stats.Capped = true
 		return
 	}
-	x := e.run(prefix)
+	x := e.run(prefix, owned)
 	for i := len(prefix); i < len(x.Choices); i++ {
 		if e.MaxDepth > 0 && i >= e.MaxDepth {
 			break
 		}
 		d := dev
-		for _, c := range x.Choices[len(prefix):i] {
+		for j, c := range x.Choices[len(prefix):i] {
 			if c != 0 {
-				d++
+				d += int(x.Costs[len(prefix)+j])
 			}
 		}
-		if d+1 > e.Bound {
+		if d+int(x.Costs[i]) > e.Bound {
 			continue
 		}
 		for alt := 1; alt < x.Ns[i]; alt++ {
-			if root && e.Mine != nil && !e.Mine() {
-				continue
+			childOwned := owned
+			if e.ShardDepth > 0 && level+1 <= e.ShardDepth {
+				if level+1 == e.ShardDepth {
+					if e.Mine != nil && !e.Mine() {
+						continue
+					}
+					childOwned = true
+				} else {
+					childOwned = e.Primary
+				}
 			}
 			np := append(append([]int{}, x.Choices[:i]...), alt)
-			e.explore(np, d+1, false)
+			e.explore(np, d+int(x.Costs[i]), level+1, childOwned)
 		}
 	}
 }
